@@ -363,3 +363,10 @@ for _p, _m in (('C04', 'harness.x04'), ('C05', 'harness.x05'), ('C06', 'harness.
     PROPS[_p]['modules'] = PROPS[_p]['modules'] + [_m]
     PROPS[_p]['stubs'] = list(PROPS[_p].get('stubs', [])) + [EXEC_NOTE]
     PROPS[_p]['files'] = list(PROPS[_p]['files']) + ['pysmi/codegen/templates/pysnmp/mib-definitions.j2', 'pysmi/codegen/templates/pysnmp/base.j2', 'pysmi/codegen/pysnmp.py']
+
+PROPS['C08']['modules'] = PROPS['C08']['modules'] + ['harness.c08_imports']
+PROPS['C08']['files'] = list(PROPS['C08']['files']) + ['pysmi/codegen/symtable.py', 'pysmi/codegen/base.py', 'pysmi/parser/smi.py']
+PROPS['C08']['functions'] = list(PROPS['C08']['functions']) + ['pysmi.codegen.symtable.SymtableCodeGen.genCode/genImports (MibInfo.imported)']
+
+PROPS['C02']['modules'] = PROPS['C02']['modules'] + ['harness.c11_reject']
+PROPS['C01']['bounds'] += '; table/row/column/SEQUENCE type in all 24 declaration orders'
